@@ -377,24 +377,28 @@ func ruleRoles(c *Ctx, id string, vr, ren, lookup, two *ssa.Function) {
 			slots[pm][k] = true
 		}
 	}
-	for _, b := range vr.Blocks {
-		for _, in := range b.Instrs {
-			switch x := in.(type) {
-			case *ssa.BinOp:
-				if x.Op != token.EQL && x.Op != token.NEQ {
-					continue
-				}
-				for _, pr := range [][2]ssa.Value{{x.X, x.Y}, {x.Y, x.X}} {
-					if n, fl, base, _ := loadedField(pr[0]); n == V.Inode && (fl == "Gen" || fl == "Inum") {
-						if pm := paramOf(pr[1]); pm != nil && isNamed(pm.Type(), "/fh", "Fh") {
-							add(pm, base)
+	// (the comparisons may sit in a predicate helper of validateRename that is handed the inode and the handle's fields)
+	for _, vsc := range scopesOf(vr) {
+		sub := vsc.S
+		for _, b := range vsc.Fn.Blocks {
+			for _, in := range b.Instrs {
+				switch x := in.(type) {
+				case *ssa.BinOp:
+					if x.Op != token.EQL && x.Op != token.NEQ {
+						continue
+					}
+					for _, pr := range [][2]ssa.Value{{x.X, x.Y}, {x.Y, x.X}} {
+						if n, fl, base, _ := loadedFieldS(pr[0], sub); n == V.Inode && (fl == "Gen" || fl == "Inum") && base != nil {
+							if pm := paramOf(sub.resolve(stripConv(pr[1]))); pm != nil && pm.Parent() == vr && isNamed(pm.Type(), "/fh", "Fh") {
+								add(pm, sub.resolve(stripConv(base)))
+							}
 						}
 					}
-				}
-			case *ssa.Call:
-				if x.Call.StaticCallee() == lookup && len(x.Call.Args) == 3 {
-					if pm, ok := stripConv(x.Call.Args[2]).(*ssa.Parameter); ok {
-						add(pm, x.Call.Args[0])
+				case *ssa.Call:
+					if x.Call.StaticCallee() == lookup && len(x.Call.Args) == 3 {
+						if pm, ok := sub.resolve(stripConv(x.Call.Args[2])).(*ssa.Parameter); ok && pm.Parent() == vr {
+							add(pm, sub.resolve(stripConv(x.Call.Args[0])))
+						}
 					}
 				}
 			}
